@@ -29,6 +29,9 @@ Faults == {
   [id |-> "syn2", class |-> "parse", lines |-> <<"2024/01/02 bad", "    A  1 X ~ 2", "    B">>, at |-> 2],
   [id |-> "syn3", class |-> "parse", lines |-> <<"2024/01/02 bad", "    A  1 X", "    B  1 X ~ 5 X", "    C">>, at |-> 3],
   [id |-> "syn4", class |-> "parse", lines |-> <<"2024/01/02 bad ; 注", "    ; メモ", "    A  1,2 X", "    B">>, at |-> 3],
+  \* parsing stops exactly at the end of a line (a directive without its argument, a date cut short)
+  [id |-> "syn5", class |-> "parse", lines |-> <<"account">>, at |-> 1],
+  [id |-> "syn6", class |-> "parse", lines |-> <<"2024">>, at |-> 1],
   [id |-> "unbalanced", class |-> "UnbalancedPostings", lines |-> <<"2024/01/02 bad", "    A  1 X", "    B  2 X">>, at |-> 0],
   [id |-> "assert1", class |-> "BalanceAssertionFailure", lines |-> <<"2024/01/02 bad", "    A  1 X = 7 X", "    B">>, at |-> 2],
   [id |-> "assert2", class |-> "BalanceAssertionFailure", lines |-> <<"2024/01/02 bad", "    A  1 X", "    B  -1 X = 7 X">>, at |-> 3],
@@ -39,13 +42,16 @@ Faults == {
 }
 
 \* ---------------------------------------------------------------- the arrangement (state)
-VARIABLE d    \* [pre |-> Seq(block kind), fault, nl |-> "LF"|"CRLF", depth |-> 0..2, via |-> "sub"|"parent", after |-> BOOLEAN]
+VARIABLE d    \* [pre |-> Seq(block kind), fault, nl |-> "LF"|"CRLF", depth |-> 0..2, via |-> "sub"|"parent", after |-> BOOLEAN, tight |-> BOOLEAN]
 
 RECURSIVE LinesOf(_)
 LinesOf(bs) == IF bs = <<>> THEN <<>> ELSE BlockLines(bs[1]) \o LinesOf(Tail(bs))
 
 PreLines == LinesOf(d.pre)
-AfterLines == IF d.after THEN <<"">> \o BlockLines("txn") ELSE <<>>
+\* what follows the bad entry: nothing, a blank line and a valid entry, or (tight) the next entries on the very next line
+AfterLines == IF ~d.after THEN <<>>
+              ELSE IF d.tight THEN <<"; the next entry follows directly">> \o BlockLines("txn")
+              ELSE <<"">> \o BlockLines("txn")
 BadFileLines == PreLines \o d.fault.lines \o AfterLines
 
 \* the tree: paths as strings relative to the root directory
